@@ -255,7 +255,7 @@ def wl_delays(ctx, idx, rng):
     dmval = float(10 ** rng.uniform(-3, 3)) * gen.pick(rng, [1, -1])
     dm = make_dm(rng, dmval)
     unit = gen.pick(rng, [u.Hz, u.kHz, u.MHz, u.GHz])
-    kind = idx % 5
+    kind = idx % 6
     fs = np.sort(10 ** rng.uniform(7, 11, size=3))
     f1, f2, f3 = [(v * u.Hz).to(unit) for v in fs]
     desc = {"dm": str(dm), "kind": kind, "f": [float(v) for v in fs]}
@@ -289,6 +289,13 @@ def wl_delays(ctx, idx, rng):
         arr = (10 ** rng.uniform(7, 11, size=(2, 3)) * u.Hz).to(unit)
         ctx.call(o, dm.sample_delay, arr, f2, sr)
         ctx.call(o, dm.sample_delay, f1, f3, sr)
+    elif kind == 5:
+        # the reference is the array (delays of one frequency against a table of references), and outer broadcasts
+        refs = (10 ** rng.uniform(7, 11, size=int(rng.integers(2, 6))) * u.Hz).to(unit)
+        ctx.call(o, dm.time_delay, f1, refs)
+        col = (10 ** rng.uniform(7, 11, size=(3, 1)) * u.Hz).to(unit)
+        ctx.call(o, dm.time_delay, col, refs[None, :])
+        ctx.call(o, dm.sample_delay, f2, refs, gen.rand_rate(rng, lo=0, hi=9))
     else:
         ctx.call(o, dm.time_delay, f1, f1)
         z, _ = ctx.call(o, dm.time_delay, f2, f2)
@@ -353,7 +360,7 @@ def install_universal(ctx):
 
 def workloads(ctx):
     q = ctx.tier == "quick"
-    return [("R", 1, wl_R), ("delays", 1500 if q else 20000, wl_delays), ("incoherent", 6000 if q else 60000, wl_incoherent)]
+    return [("R", 1, wl_R), ("delays", 1800 if q else 24000, wl_delays), ("incoherent", 6000 if q else 60000, wl_incoherent)]
 
 
 def setup(ctx):
